@@ -59,6 +59,21 @@ type podSpec struct {
 	Prio      string
 	Dnd       *string
 	Start     *int64 // status.startTime, seconds after base
+	OtherAnn  map[string]string // annotations other than do-not-disrupt
+	OnNode    string            // "" = the draining node; else another node
+}
+
+// pods with Name >= 1000 live in namespace "other" under the name of pod Name-1000 (same name, other namespace)
+func (p *podSpec) nsName() (string, string) {
+	if p.Name >= 1000 {
+		return "other", fmt.Sprintf("p%d", p.Name-1000)
+	}
+	return "default", fmt.Sprintf("p%d", p.Name)
+}
+
+func (p *podSpec) objKey() client.ObjectKey {
+	ns, nm := p.nsName()
+	return client.ObjectKey{Namespace: ns, Name: nm}
 }
 
 func (p *podSpec) clone() *podSpec {
@@ -77,9 +92,14 @@ func i64(x int64) *int64 { return &x }
 func str(s string) *string { return &s }
 
 func mkPod(p *podSpec) *corev1.Pod {
+	ns, nm := p.nsName()
+	onNode := nodeName
+	if p.OnNode != "" {
+		onNode = p.OnNode
+	}
 	pod := &corev1.Pod{
-		ObjectMeta: metav1.ObjectMeta{Namespace: "default", Name: fmt.Sprintf("p%d", p.Name), UID: types.UID(fmt.Sprintf("u%d", p.UID))},
-		Spec: corev1.PodSpec{NodeName: nodeName, PriorityClassName: p.Prio, TerminationGracePeriodSeconds: p.Grace,
+		ObjectMeta: metav1.ObjectMeta{Namespace: ns, Name: nm, UID: types.UID(fmt.Sprintf("u%d", p.UID))},
+		Spec: corev1.PodSpec{NodeName: onNode, PriorityClassName: p.Prio, TerminationGracePeriodSeconds: p.Grace,
 			Tolerations: p.Tols, Containers: []corev1.Container{{Name: "c", Image: "i"}}},
 		Status: corev1.PodStatus{Phase: p.Phase},
 	}
@@ -92,8 +112,17 @@ func mkPod(p *podSpec) *corev1.Pod {
 		k := ownerKinds[o]
 		pod.OwnerReferences = append(pod.OwnerReferences, metav1.OwnerReference{APIVersion: k[0], Kind: k[1], Name: fmt.Sprintf("o%d", i), UID: types.UID(fmt.Sprintf("ou%d", i))})
 	}
+	if p.OtherAnn != nil {
+		pod.Annotations = map[string]string{}
+		for k, v := range p.OtherAnn {
+			pod.Annotations[k] = v
+		}
+	}
 	if p.Dnd != nil {
-		pod.Annotations = map[string]string{v1.DoNotDisruptAnnotationKey: *p.Dnd}
+		if pod.Annotations == nil {
+			pod.Annotations = map[string]string{}
+		}
+		pod.Annotations[v1.DoNotDisruptAnnotationKey] = *p.Dnd
 	}
 	if p.Start != nil {
 		t := metav1.NewTime(at(*p.Start * sec))
@@ -106,6 +135,9 @@ func podKey(pod *corev1.Pod) [2]int64 {
 	var n, u int64
 	if _, err := fmt.Sscanf(pod.Name, "p%d", &n); err != nil {
 		panic("unexpected pod name " + pod.Name)
+	}
+	if pod.Namespace == "other" {
+		n += 1000
 	}
 	if _, err := fmt.Sscanf(string(pod.UID), "u%d", &u); err != nil {
 		panic("unexpected pod uid " + string(pod.UID))
@@ -331,7 +363,7 @@ func (s *sut) install(pods []*podSpec) {
 	var sig strings.Builder
 	for _, p := range pods {
 		sig.WriteString(toModel(mkPod(p)))
-		sig.WriteString(string(p.Phase))
+		sig.WriteString(string(p.Phase) + "@" + p.OnNode + fmt.Sprint(len(p.OtherAnn)))
 		sig.WriteByte(';')
 	}
 	if s.sig == sig.String() && s.sw.Client != nil {
@@ -372,6 +404,9 @@ func (s *sut) snapshot() []qitem {
 		var n, u int64
 		if _, err := fmt.Sscanf(it.Key.Name, "p%d", &n); err != nil {
 			panic(err)
+		}
+		if it.Key.Namespace == "other" {
+			n += 1000
 		}
 		if _, err := fmt.Sscanf(string(it.Key.UID), "u%d", &u); err != nil {
 			panic(err)
@@ -511,6 +546,12 @@ func (h *hist) classify(p *corev1.Pod) {
 	if p.Spec.TerminationGracePeriodSeconds == nil {
 		h.c.Count("pod:grace-nil")
 	}
+	if _, ok := p.Annotations[v1.DoNotDisruptAnnotationKey]; !ok && len(p.Annotations) > 0 {
+		h.c.Count("pod:annotations-without-do-not-disrupt-key")
+	}
+	if p.Status.Phase != corev1.PodRunning && !podutil.IsTerminal(p) {
+		h.c.Count("pod:phase-" + map[corev1.PodPhase]string{corev1.PodPending: "pending", corev1.PodUnknown: "unknown", "": "empty"}[p.Status.Phase])
+	}
 	// boundary hits of the time comparisons (exact instant, 1ns either side)
 	near := func(name string, d int64) {
 		switch d {
@@ -639,7 +680,7 @@ func (h *hist) reconcile(p *podSpec, pl plan) (act string, ok bool) {
 	pods = append(pods, p)
 	h.s.install(pods)
 	obj := &corev1.Pod{}
-	if err := h.s.sw.Client.Get(h.ctx, client.ObjectKey{Namespace: "default", Name: fmt.Sprintf("p%d", p.Name)}, obj); err != nil {
+	if err := h.s.sw.Client.Get(h.ctx, p.objKey(), obj); err != nil {
 		panic(err)
 	}
 	before := h.s.snapshot()
@@ -806,6 +847,13 @@ var variants = []variant{
 	{"dnd-neg", func(p *podSpec) { p.Dnd = str("-5m") }},
 	{"dnd-zero", func(p *podSpec) { p.Dnd = str("0s") }},
 	{"dnd-1h-critical-ds", func(p *podSpec) { p.Dnd = str("1h"); p.Prio = "system-node-critical"; p.Owners = []string{"oDS"} }},
+	{"annotation-other-only", func(p *podSpec) { p.OtherAnn = map[string]string{"example.com/team": "a"} }},
+	{"annotation-near-miss-key", func(p *podSpec) {
+		p.OtherAnn = map[string]string{"karpenter.sh/do-not-evict": "true", "karpenter.sh/do-not-disrupt ": "true"}
+	}},
+	{"annotation-other+dnd", func(p *podSpec) { p.OtherAnn = map[string]string{"example.com/team": "a"}; p.Dnd = str("true") }},
+	{"phase-unknown", func(p *podSpec) { p.Phase = corev1.PodUnknown }},
+	{"phase-empty", func(p *podSpec) { p.Phase = "" }},
 	{"phase-succeeded", func(p *podSpec) { p.Phase = corev1.PodSucceeded }},
 	{"phase-failed", func(p *podSpec) { p.Phase = corev1.PodFailed }},
 	{"phase-pending", func(p *podSpec) { p.Phase = corev1.PodPending }},
@@ -1017,7 +1065,18 @@ func runHistory(c *kit.Ctx, nOps int) {
 	h := newHist(c, r)
 	for i, n := 0, r.Range(2, 6); i < n; i++ {
 		name := r.Range(1, 8)
+		if r.Chance(1, 8) {
+			name += 1000 // same name in another namespace: a different queue key
+			h.c.Count("pod:other-namespace")
+		}
 		h.world[name] = h.randomPod(name)
+	}
+	if r.Chance(1, 4) { // a pod bound to another node must never be touched
+		p := h.randomPod(50)
+		p.OnNode = "node-b"
+		p.Del = nil
+		h.world[50] = p
+		h.c.Count("pod:on-another-node")
 	}
 	switch r.Intn(8) {
 	case 0:
@@ -1171,12 +1230,7 @@ func main() {
 	if c.Thorough() {
 		nRace = 2500
 	}
-	if os.Getenv("VERIF_C10_SKIP_RACE") != "" { // development: mutation runs before the known finding is listed
-		nRace = -1
-	}
-	if nRace >= 0 {
-		runRaceWitness(c)
-	}
+	runRaceWitness(c)
 	for i := 0; i < nRace; i++ {
 		runRace(c)
 	}
